@@ -391,7 +391,7 @@ async fn run_matrix(a: &Args, m: &mut mon::Mon) {
     while t0.elapsed() < a.budget {
         let seed = subseed(a, world_no);
         let mut r = storm::rng(seed);
-        let (mut w, t) = matrix::build_twin(seed, &mut r).await;
+        let (mut w, t) = matrix::build_twin_v(seed, &mut r, true).await;
         if a.prop == "C08" {
             matrix::run_c08(&mut w, m, &mut r, &t).await;
         } else {
